@@ -67,8 +67,8 @@ Print Assumptions C34_immediate_absolute.
    action 2 is cancelled at 0 < 1000 and never fires; action 3 (absolute 1000) fires at 1000 *)
 Example C34_ex_timeout :
   let c := trun (tinit 0 [[TRel 2000 1%nat; TRel 1000 2%nat; TCancel 2%nat]; [TAbs 1000 3%nat]])
-                (map TMStep [0; 0; 0; 1; 1; 2; 3; 4]%nat ++ [TMTick 1000] ++ map TMStep [2; 3; 4; 4; 4]%nat ++
-                 [TMTick 1000] ++ map TMStep [2; 2; 2]%nat) in
+                (map TMStep [0; 0; 0; 1; 1; 2; 3; 4]%nat ++ [TMTick 1000%N] ++ map TMStep [2; 3; 4; 4; 4]%nat ++
+                 [TMTick 1000%N] ++ map TMStep [2; 2; 2]%nat) in
   map (fun x => (snd (fst x), snd x)) (filter (fun x => match snd x with TStart _ _ => true | _ => false end) (t_log c))
     = [(1000, TStart 3 1000); (2000, TStart 1 2000)] /\
   map RealTime.tstatus (t_ths c) = [1; 1; 1; 1; 1]%nat.
